@@ -170,10 +170,9 @@ def engine(R, ctx, cases, modes=("1",), need_spec=False):
 # ----------------------------------------------------------------------------- C01
 
 
-@runner("C01")
-def c01(R, ctx):
-    C = Cases(R.rng, ctx["tier"])
-    cases = C.wellformed(per_type=1, per_cc=1) + C.streams(n=25)
+def layout_oracle(R, ctx, cases, sigprefix="c01"):
+    """well-formed inputs (as judged by the specification at the pinned layout) must decode to the specified
+    events; returns (set of flagged indices, reqs, impl, model, spec)"""
     res, spec = engine(R, ctx, cases, modes=("1",), need_spec=True)
     reqs, impl, model = res["1"]
     flagged = set()
@@ -190,11 +189,20 @@ def c01(R, ctx):
             ie, io = split_result(no_pulled(impl[k]))
             se, so = split_result(no_pulled(s))
             pos = next((j for j, (a, b) in enumerate(zip(ie + [io], se + [so])) if a != b), min(len(ie), len(se)))
-            R.violation("c01:%s:%s" % (c[1].split(":")[0], (se + [so])[pos].split(" ")[0] if pos < len(se) + 1 else "len"),
+            got = (ie + [io])[pos] if pos <= len(ie) else None
+            exp = (se + [so])[pos] if pos <= len(se) else None
+            R.violation("%s:%s:%s" % (sigprefix, c[1].split(":")[0], (exp or "len").split(" ")[0]),
                         "well-formed %s input decodes differently from the TPM 2.0 layout interpretation: item %d is %r, expected %r"
-                        % (c[1], pos, (ie + [io])[pos] if pos <= len(ie) else None, (se + [so])[pos] if pos <= len(se) else None),
-                        replay_of(c, "1", impl[k], {"expected": s}))
-    R.coverage["well_formed_by_spec"] = wf
+                        % (c[1], pos, got, exp), replay_of(c, "1", impl[k], {"expected": s}))
+    R.coverage["well_formed_by_spec"] = R.coverage.get("well_formed_by_spec", 0) + wf
+    return flagged, reqs, impl, model, spec
+
+
+@runner("C01")
+def c01(R, ctx):
+    C = Cases(R.rng, ctx["tier"])
+    cases = C.wellformed(per_type=1, per_cc=1) + C.streams(n=25)
+    flagged, reqs, impl, model, spec = layout_oracle(R, ctx, cases)
     bad = correspondence(R, ctx, reqs, impl, model)
     report_disagreements(R, ctx, reqs, impl, model, bad, flagged)
     distribution(R, cases, impl)
@@ -502,3 +510,140 @@ def c10(R, ctx):
     bad = correspondence(R, ctx, reqs, impl, model, what="events, pull count of every event, outcome")
     report_disagreements(R, ctx, reqs, impl, model, bad, flagged)
     distribution(R, cases, impl)
+
+
+# ----------------------------------------------------------------------------- C20
+
+
+def json_diff(a, b, path="", out=None, limit=40):
+    if out is None:
+        out = []
+    if len(out) >= limit:
+        return out
+    if type(a) != type(b):
+        out.append("%s: %r -> %r" % (path, a if not isinstance(a, (dict, list)) else type(a).__name__, b if not isinstance(b, (dict, list)) else type(b).__name__))
+    elif isinstance(a, dict):
+        for k in sorted(set(a) | set(b)):
+            if k not in a:
+                out.append("%s/%s: added" % (path, k))
+            elif k not in b:
+                out.append("%s/%s: removed" % (path, k))
+            else:
+                json_diff(a[k], b[k], path + "/" + str(k), out, limit)
+    elif isinstance(a, list):
+        if len(a) != len(b):
+            out.append("%s: length %d -> %d" % (path, len(a), len(b)))
+        for i, (x, y) in enumerate(zip(a, b)):
+            json_diff(x, y, "%s[%d]" % (path, i), out, limit)
+    elif a != b:
+        out.append("%s: %r -> %r" % (path, a, b))
+    return out
+
+
+@runner("C20")
+def c20(R, ctx):
+    cur, pin = ctx["tables"], ctx["pinned"]
+    diffs = json_diff(pin, cur)
+    nprims, ntypes = len(cur["prims"]), len(cur["types"])
+    nfields = sum(len(t.get("fields", t.get("arms", []))) for t in cur["types"].values())
+    R.coverage.update({"evaluations": nprims + ntypes + 4 * len(cur["cmd_handles"]), "distinct_nontrivial": nprims + ntypes,
+                       "rule": "every primitive, structure/TPM2B/union/area type and command-map entry of the regenerated tables is compared with the pinned snapshot and checked for coherence inside Coq (finite, complete)",
+                       "exhaustive": True, "prims": nprims, "types": ntypes, "fields_and_arms": nfields,
+                       "descriptor_differences": len(diffs),
+                       "samples": [{"type": "TPMS_AUTH_COMMAND", "descriptor": cur["types"].get("TPMS_AUTH_COMMAND")}]})
+    if cur.get("dup_names"):
+        R.violation("c20:duplicate-class-name:" + ",".join(cur["dup_names"]),
+                    "two distinct layout classes share the name(s) %s (each command code must have its own, distinctly named layouts)" % cur["dup_names"],
+                    {"duplicate_names": cur["dup_names"]})
+    if diffs:
+        # search for a concrete message that now decodes differently from the pinned layout
+        C = Cases(R.rng, "thorough" if ctx["tier"] == "thorough" else "quick")
+        cases = C.wellformed(per_type=2, per_cc=2)
+        before = len(R.violations)
+        flagged, reqs, impl, model, spec = layout_oracle(R, ctx, cases, sigprefix="c20:layout")
+        if len(R.violations) == before:
+            R.violation("c20:pinned-mismatch", "the layout tables differ from the pinned snapshot: " + "; ".join(diffs[:6]),
+                        {"theorem": "Properties/C20.v: C20_pinned (Tables.T = Pinned.T)", "differences": diffs}, found_input=False)
+        else:
+            R.violations = [(s, w + " [tables differ from the pinned snapshot: %s]" % "; ".join(diffs[:3]), dict(r, differences=diffs), f) for (s, w, r, f) in R.violations]
+
+
+# ----------------------------------------------------------------------------- C17
+
+
+@runner("C17")
+def c17(R, ctx):
+    cur = ctx["tables"]
+    types = sorted(n for n, p in cur["prims"].items() if p["kind"]["k"] == "bits")
+    reqs, meta = [], []
+    for n in types:
+        p = cur["prims"][n]
+        nb = 8 * p["width"]
+        masks = [m for _, m in p["kind"]["masks"]]
+        if nb <= 8:
+            vals = list(range(1 << nb))
+        else:
+            vals = [0, (1 << nb) - 1] + [1 << i for i in range(nb)] + [((1 << nb) - 1) ^ (1 << i) for i in range(nb)]
+            vals += masks + [((1 << nb) - 1) ^ m for m in masks]
+            vals += [R.rng.randrange(1 << nb) for _ in range(60 if ctx["tier"] == "quick" else 2000)]
+        for v in vals:
+            reqs.append("attr cur %s %d" % (n, v))
+            meta.append((n, v, nb, p["kind"]["masks"]))
+    impl = common.run_impl("impl_worker", reqs)
+    model = common.run_model(reqs) if ctx["driver_ok"] else impl
+    flagged = set()
+    for k, (n, v, nb, masks) in enumerate(meta):
+        # oracle on the implementation's own output
+        fields = impl[k].split(",")
+        problem = None
+        union = 0
+        for (mn, m) in masks:
+            if union & m:
+                problem = "masks overlap at %#x" % (union & m)
+            union |= m
+        if union != (1 << nb) - 1 and problem is None:
+            problem = "bits %#x are in no field" % (((1 << nb) - 1) ^ union)
+        shown = [None] * nb
+        if problem is None:
+            if len(fields) != len(masks):
+                problem = "rows/fields mismatch: " + impl[k][:80]
+            else:
+                for f, (mn, m) in zip(fields, masks):
+                    try:
+                        name, rest = f.split("=")
+                        acc, row = rest.split(":")
+                    except ValueError:
+                        problem = "unparsable row " + f
+                        break
+                    ctz = (m & -m).bit_length() - 1
+                    if int(acc) != (v & m) >> ctz:
+                        problem = "accessor %s returns %s, field bits are %d" % (name, acc, (v & m) >> ctz)
+                        break
+                    if len(row) != nb:
+                        problem = "row %s has %d positions" % (name, len(row))
+                        break
+                    for j, ch in enumerate(row):
+                        if ch != ".":
+                            if shown[j] is not None:
+                                problem = "bit position %d shown twice" % j
+                            shown[j] = ch
+                if problem is None:
+                    want = format(v, "0%db" % nb)
+                    if "".join(c or "." for c in shown) != want:
+                        problem = "overlay of the rows is %s, value is %s" % ("".join(c or "." for c in shown), want)
+        if problem:
+            flagged.add(k)
+            R.violation("c17:%s:%s" % (n, problem.split(" ")[0]), "%s(%#x): %s" % (n, v, problem),
+                        {"type": n, "value": v, "implementation": impl[k], "how": "harness/impl_worker.py: attr cur %s %d" % (n, v)})
+    bad = [k for k in range(len(reqs)) if impl[k] != model[k]]
+    R.coverage.update({"correspondence_cases": len(reqs), "correspondence_disagreements": len(bad),
+                       "correspondence_compares": "per field: accessor value and printed bit row",
+                       "evaluations": len(reqs), "distinct_nontrivial": len(set((m[0], m[1]) for m in meta)),
+                       "rule": "all attribute types; all 256 values of 8-bit types; for wider words 0, all-ones, walking ones/zeros, every mask and its complement, seeded random words; distinct = distinct (type, value)",
+                       "samples": [{"request": reqs[i], "implementation": impl[i]} for i in (0, len(reqs) // 2)],
+                       "attribute_types": types})
+    for k in bad:
+        if k not in flagged:
+            R.violation("correspondence:C17", "model and implementation differ on `%s`: impl=%r model=%r" % (reqs[k], impl[k][:200], model[k][:200]),
+                        {"request": reqs[k], "implementation": impl[k], "model": model[k], "theorem": "correspondence Model/Attr.v <-> values.py/pretty"}, found_input=False)
+            break
